@@ -143,6 +143,30 @@ def substitution(rep: Report, mods, rng: random.Random, t: str) -> int:
                 if not proj.valid(out):
                     rep.violation(f"pattern_matching.sub returned text that does not parse (pattern {pat!r}, replacement {repl!r})",
                                   {"origin": origin, "pattern": pat, "replacement": repl, "count": count, "source": text, "output": out})
+    # directed: sources indented with tabs (sub / subn do not normalise them first) x replacements of more than one line
+    tabbed = ["def f(a):\n\tif a:\n\t\tx = g(a)\n\t\treturn x\n\treturn 0\n",
+              "class K:\n\tdef m(self, a):\n\t\tx = g(a)\n\t\treturn x\n",
+              "for i in r:\n\tx = g(i)\n\tprint(x)\n",
+              "def f(a):\n    if a:\n        x = g(a)\n        return x\n    return 0\n",
+              "if c:\n\ttry:\n\t\tx = g(1)\n\tfinally:\n\t\tprint(2)\n"]
+    multi = [("{{x}} = g({{y}})", "{{x}} = g({{y}})\nlog({{x}})"), ("{{x}} = g({{y}})", "if {{y}}:\n    {{x}} = g({{y}})\nelse:\n    {{x}} = None"),
+             ("{{x}} = g({{y}})", "{{x}} = (\n    g({{y}})\n)"), ("g({{y}})", "h(\n    {{y}},\n    1,\n)"), ("return {{x}}", "log({{x}})\nreturn {{x}}")]
+    for text in tabbed:
+        if not proj.valid(text):
+            raise MachineryError(f"directed substitution source does not parse: {text!r}")
+        for pat, repl in multi:
+            for fn in ("sub", "subn"):
+                n += 1
+                try:
+                    out = getattr(pm, fn)(pat, repl, text)
+                except Exception as exc:  # noqa: BLE001
+                    rep.violation(f"pattern_matching.{fn} raised {type(exc).__name__} ({exc}) instead of returning valid text "
+                                  f"(pattern {pat!r}, replacement {repl!r})", {"pattern": pat, "replacement": repl, "source": text})
+                    continue
+                out = out[0] if fn == "subn" else out
+                if not proj.valid(out):
+                    rep.violation(f"pattern_matching.{fn} returned text that does not parse (pattern {pat!r}, replacement {repl!r})",
+                                  {"pattern": pat, "replacement": repl, "source": text, "output": out})
     return n
 
 
@@ -256,9 +280,17 @@ def main(argv=None) -> int:
                                       opts_list=({},) if t == "quick" else ({}, {"safe": True}), fragments=True)
     runs = pipecheck.run_and_validate(rep, items, label="C03 inputs", timeout=60 if t == "quick" else 180)
     nontrivial = 0
+    syntax_errors = ("SyntaxError", "IndentationError", "TabError")
     for r in runs:
         if r.result is not None and r.result != r.source:
             nontrivial += 1
+        # a stage that dies of a SyntaxError on valid input has been handed (or has built) text that does not parse: the invalid
+        # text is the tool's own product.  Every other exception is C04's business.
+        if r.result is None and r.error and str(r.error).startswith(syntax_errors) and proj.valid(r.source):
+            raised = [e.get("stage") for e in r.events if isinstance(e, dict) and e.get("raised")]
+            rep.violation(f"format_code raised {str(r.error)[:120]} on valid input (stage {raised[0] if raised else '?'}): the tool built text that "
+                          f"does not parse; input {r.key}", {"input_id": r.key, "source": r.source, "options": r.opts_json(), "error": str(r.error)})
+            continue
         bad = {c: p for c, p in r.verdict["bad"].items() if c in ("KeepValid", "FinalValid")}
         if not bad:
             continue
@@ -280,7 +312,10 @@ def main(argv=None) -> int:
         n_iso += len(isolated.rule_names())
         for rule, out, err in results:
             if err is not None:
-                continue   # crashes are C04's business
+                if str(err).startswith(syntax_errors) and proj.valid(text):
+                    rep.violation(f"rule {rule} raised {str(err)[:120]} on valid input: it built text that does not parse; input {origin}",
+                                  {"input_id": origin, "rule": rule, "source": text, "error": str(err)})
+                continue   # other crashes are C04's business
             fired[rule] = fired.get(rule, 0) + 1
             if not proj.valid(out):
                 rep.violation(f"rule {rule} turned valid Python into text that does not parse; input {origin}",
